@@ -928,7 +928,7 @@ fn cut_scenario(out: &mut Out, it: &mut Interner, args: &Args, rng: &mut Rng) {
     let exe = std::env::current_exe().unwrap();
     let seed = args.seed;
     let rsynccut = args.get_u64("rsynccut", 1) == 1;
-    let stalenotif = args.get_u64("stalenotif", 0) == 1;
+    let stalenotif = args.get_u64("stalenotif", 1) == 1;
     let base = args.out.join("cut");
     let _ = std::fs::remove_dir_all(&base);
     std::fs::create_dir_all(&base).unwrap();
@@ -982,8 +982,9 @@ fn cut_scenario(out: &mut Out, it: &mut Interner, args: &Args, rng: &mut Rng) {
         let r_cut = abstract_state(&st, vec![], it);
         emit_write_cases(out, it, "update(cut)", &pre_raw, &cut_raw, &r_cut, false, &ctrace, &repo_str, Some(n), false, "", &olds, None, Some(rrdp_len), json!({"scenario": "cut", "cut": n, "next_mutation": trace.get(n).map(|(k, p)| format!("{k} {p}"))}));
         // a fresh runtime goes on
-        // a non-empty new-notification.xml left behind is overwritten without truncation by the next write: a
-        // shorter notification (session reset) then ends in stale bytes (finding F11g); only with --stalenotif 1
+        // a non-empty new-notification.xml left behind: before commit 861388f0 the next write overwrote it without
+        // truncation and a shorter notification (session reset) ended in stale bytes (finding F11g, fixed); the
+        // follow-up at that cut is a session reset (--stalenotif 0: any)
         let mut follow = follows[(n + seed as usize) % follows.len()];
         if stale_new_notification(&cut_raw) { follow = if stalenotif { "reset" } else if follow == "reset" { "update" } else { follow }; }
         let (rc2, err2) = run_worker(&exe, seed, &d, &[("worker", "recover".into()), ("follow", follow.into()), ("content0", (content_next + 10 * n as u64 + 10).to_string()), ("salt", (n as u64 + 1).to_string())]);
